@@ -7,6 +7,8 @@
 //!   @stage <tag> <code> <e>  pipeline stage: copy stdin lines to stdout with <tag> appended, write line <e> to stderr
 //!   @script <op>...          I/O script: r<N> read N bytes (or to EOF if fewer), R read to EOF, wo<N>/we<N> write N bytes,
 //!                            ci/co/ce close, s<ms> sleep, x<code> exit, k<sig> raise signal
+//!   @pscript <op>...         the same with position-dependent stream content (simk::units::pat) that is verified
+//!                            on stdin, and monotonic-clock stamps of what happened when (notes in <pid>.log)
 use std::fs;
 use std::io::{Read, Write};
 use std::os::unix::ffi::OsStrExt;
@@ -207,6 +209,125 @@ fn main() {
                 }
                 left -= w as usize;
             }
+            std::process::exit(0);
+        }
+        b"@pscript" => {
+            let now = || -> u64 {
+                let mut ts: libc::timespec = unsafe { std::mem::zeroed() };
+                unsafe { libc::clock_gettime(libc::CLOCK_MONOTONIC, &mut ts) };
+                ts.tv_sec as u64 * 1_000_000_000 + ts.tv_nsec as u64
+            };
+            let mut received: u64 = 0;
+            let mut recv_ok = true;
+            let mut wrote = [0u64; 3];
+            let mut t_last: u64 = 0;
+            let mut eof_seen = false;
+            // one read of up to `want` bytes; returns false at end-of-file / error
+            let mut do_read = |want: usize, received: &mut u64, recv_ok: &mut bool, t_last: &mut u64, eof_seen: &mut bool| -> bool {
+                let mut buf = vec![0u8; want];
+                let t0 = now();
+                let n = unsafe { libc::read(0, buf.as_mut_ptr() as *mut _, want) };
+                if n <= 0 {
+                    if !*eof_seen {
+                        *eof_seen = true;
+                        let t1 = now();
+                        // how long this read waited for end-of-file after the last byte had arrived
+                        let from = if *t_last > t0 { *t_last } else { t0 };
+                        note("eof", &format!("{} {} {}", t1, t1.saturating_sub(from), n));
+                    }
+                    return false;
+                }
+                for j in 0..n as usize {
+                    if buf[j] != simk::units::pat(0, *received + j as u64) {
+                        *recv_ok = false;
+                    }
+                }
+                *received += n as u64;
+                *t_last = now();
+                true
+            };
+            for op in args.iter().skip(2) {
+                let op = String::from_utf8_lossy(op).into_owned();
+                let (head, num) = {
+                    let idx = op.find(|c: char| c.is_ascii_digit()).unwrap_or(op.len());
+                    (op[..idx].to_string(), op[idx..].parse::<u64>().unwrap_or(0))
+                };
+                match head.as_str() {
+                    "r" => {
+                        // read exactly num bytes (fewer at end-of-file)
+                        let mut left = num as usize;
+                        while left > 0 {
+                            let before = received;
+                            if !do_read(left.min(65536), &mut received, &mut recv_ok, &mut t_last, &mut eof_seen) {
+                                break;
+                            }
+                            left -= (received - before) as usize;
+                        }
+                    }
+                    "q" => {
+                        // one read of at most num bytes
+                        do_read(num as usize, &mut received, &mut recv_ok, &mut t_last, &mut eof_seen);
+                    }
+                    "R" => while do_read(65536, &mut received, &mut recv_ok, &mut t_last, &mut eof_seen) {},
+                    "o" | "e" => {
+                        let fd = if head == "o" { 1 } else { 2 };
+                        let mut left = num;
+                        let mut buf = vec![0u8; 65536];
+                        while left > 0 {
+                            let k = left.min(65536) as usize;
+                            for j in 0..k {
+                                buf[j] = simk::units::pat(fd as usize, wrote[fd as usize] + j as u64);
+                            }
+                            let n = unsafe { libc::write(fd, buf.as_ptr() as *const _, k) };
+                            if n <= 0 {
+                                note("write_failed", &format!("{}", fd));
+                                left = 0;
+                                break;
+                            }
+                            wrote[fd as usize] += n as u64;
+                            left -= n as u64;
+                        }
+                        let _ = left;
+                    }
+                    "P" => {
+                        // a forked helper writes num bytes to stderr concurrently with whatever follows
+                        let off = wrote[2];
+                        wrote[2] += num;
+                        let pid = unsafe { libc::fork() };
+                        if pid == 0 {
+                            let mut buf = vec![0u8; 65536];
+                            let mut done = 0u64;
+                            while done < num {
+                                let k = (num - done).min(65536) as usize;
+                                for j in 0..k {
+                                    buf[j] = simk::units::pat(2, off + done + j as u64);
+                                }
+                                let n = unsafe { libc::write(2, buf.as_ptr() as *const _, k) };
+                                if n <= 0 {
+                                    break;
+                                }
+                                done += n as u64;
+                            }
+                            unsafe { libc::_exit(0) };
+                        }
+                    }
+                    "ci" | "co" | "ce" => {
+                        let fd = match head.as_str() {
+                            "ci" => 0,
+                            "co" => 1,
+                            _ => 2,
+                        };
+                        note("closing", &format!("{} {} {}", fd, now(), wrote[fd as usize]));
+                        unsafe {
+                            libc::close(fd);
+                        }
+                    }
+                    "s" => std::thread::sleep(std::time::Duration::from_millis(num)),
+                    "x" => break,
+                    _ => {}
+                }
+            }
+            note("final", &format!("{} {} {} {} {} {}", now(), received, recv_ok, wrote[1], wrote[2], eof_seen));
             std::process::exit(0);
         }
         b"@script" => {
